@@ -177,7 +177,7 @@ func C02(r *vf.Run) {
 	r.Assume = []string{"whole 16 MiB mapped on both sides", "divergence visible only in a non-authoritative register copy is counted (raw_copy_divergences), not judged, until it surfaces architecturally", "interrupt requests (TriggerIRQ, NMI) are raised identically on both sides during program lockstep"}
 	ncpu := runtime.NumCPU()
 	if r.Phase("single-step") {
-		per := r.N(30, 2500)
+		per := r.N(30, 6000)
 		r.Parallel(ncpu, 256, func(wi, op int) {
 			w := newDiffWorker(r)
 			defer w.flush()
@@ -386,7 +386,7 @@ func C08(r *vf.Run) {
 		}
 	}
 	if r.Phase("top-directed") {
-		per := r.N(100, 5000)
+		per := r.N(100, 40000)
 		r.Parallel(ncpu, 256, func(wi, op int) {
 			w := newDiffWorker(r)
 			defer w.flush()
@@ -408,7 +408,7 @@ func C08(r *vf.Run) {
 		})
 	}
 	if r.Phase("random-states") {
-		per := r.N(60, 3000)
+		per := r.N(60, 20000)
 		r.Parallel(ncpu, 256, func(wi, op int) {
 			w := newDiffWorker(r)
 			defer w.flush()
@@ -432,7 +432,7 @@ func C08(r *vf.Run) {
 		})
 	}
 	if r.Phase("programs") {
-		n := r.N(1200, 120000)
+		n := r.N(1200, 600000)
 		chunks := 240
 		r.Parallel(ncpu, chunks, func(wi, ci int) {
 			w := newDiffWorker(r)
